@@ -15,7 +15,7 @@ META = {
     "quick = a 1/40 slice, thorough = all => exhaustive), random depth 3-5 beyond; each through Select, SelectMany and Where of an "
     "untyped stream as source string and as ast, a slice also as capture-free callables from generated files; oracle: syntactic "
     "refusal classes r1-r4; outside them the call must succeed with the emitted lambda struct-equal to the parsed input; any "
-    "exception other than ValueError is a violation everywhere; distinct by (operator, mode, text); non-trivial = depth >= 2",
+    "exception other than ValueError is a violation everywhere; a directed set of clear-cut instances of each designed refusal must be refused; distinct by (operator, mode, text); non-trivial = depth >= 2",
     "assumptions": [
         "inside a refusal class (non-transportable constant, bad tuple index, absent dict key, conditional whose branches are not both "
         "numeric/unknown or of the same obvious kind) both ValueError and unchanged pass-through are accepted",
